@@ -364,7 +364,7 @@ def hash_ordered_ok(name, st, gs):
 
 def shape_graph_case(rng, name, st, tiny=False):
     """GRAPH stack + operands for one GRAPH.* instruction; returns (state dict, PyGraph stack, next_node)"""
-    if name in ("GRAPH.ADD", "GRAPH.DUP", "GRAPH.STACKDEPTH", "GRAPH.NODE*ADD") and rng.random() < 0.06:
+    if name in ("GRAPH.ADD", "GRAPH.DUP", "GRAPH.STACKDEPTH", "GRAPH.NODE*ADD") and rng.random() < 0.15:
         gs, nn = full_graph_stack(rng, rng.choice([99, 100, 100]))
     else:
         gs, nn = rand_graphs(rng, tiny=tiny)
